@@ -2,6 +2,7 @@
 CFG = {
     "jobs": lambda tier: [
         J("scaled", "c03", imports="Base Stream Inst Run RunC03", shard=4, timeout=3000),
+        J("prod", "c03-lengths"),
     ],
     "run_modules": ["RunC03"],
     "rule": "scaled constants (CHUNK=64): 4 (quick) / 20 (thorough) generated encrypted and encrypted+compressed archives of <= 560/900 bytes "
@@ -32,3 +33,8 @@ CFG = {
         "splice from an archive with the SAME key and nonce is not generated: ArchiveWriterConfig offers no way to choose them (EncryptionConfig::verif_new exists at layer level only); by construction such a chunk verifies (it is the Forgery disjunct of the theorem)",
     ],
 }
+
+# round-3 seed C03-m5: "unaltered archives always open" for every length of the encryption layer's plaintext
+CFG["rule"] += ("; unaltered length sweep: scaled - one file of every size 0..3*CHUNK+8 (thorough 4*CHUNK+20), layers ENCRYPT and ENCRYPT|COMPRESS, opened, listed and read; "
+                "c03-lengths (production constants) - the layer's plaintext takes every length in [k*CHUNK-8, k*CHUNK+24], k = 1, 2 (3 in thorough): an archive of one chunk "
+                "plus 1-3 bytes exists only at production constants")
